@@ -19,7 +19,7 @@
 
 // AddressSanitizer findings are classified, not trusted blindly: exit code 77.
 extern "C" __attribute__((used, visibility("default"))) const char *__asan_default_options() {
-    return "exitcode=77:quarantine_size_mb=8:thread_local_quarantine_size_kb=64:detect_leaks=0:abort_on_error=0:handle_abort=0:allocator_may_return_null=1:detect_stack_use_after_return=0";
+    return "exitcode=77:malloc_context_size=5:quarantine_size_mb=8:thread_local_quarantine_size_kb=64:detect_leaks=0:abort_on_error=0:handle_abort=0:allocator_may_return_null=1:detect_stack_use_after_return=0";
 }
 
 namespace sim {
@@ -490,6 +490,7 @@ int sim_main(int argc, char **argv, World &w) {
         Iso r1 = run_isolated(w, prop, t.k, t.p, nullptr, substream(rs, "sched"));
         // memory corruption in the code under test may show as a different class in a differently laid out process: a violation both times is
         // still a violation (the isolated class is reported); only "violation in the batch, fine in isolation" is a determinism failure of the harness
+        if (r1.cls.empty() && v.cls == "CRASH-SIG9") { fprintf(stderr, "NOTE: a worker was killed from outside (SIGKILL, e.g. by the OOM killer) during run %llu; re-executed in isolation: the property held\n", (unsigned long long)v.idx); continue; }
         if (r1.cls.empty() || r1.cls == "INFRA") { infra++; infra_msgs.push_back("NONDETERMINISM run " + std::to_string(v.idx) + ": batch said " + v.cls + "/" + v.taint + ", isolated re-execution said " + (r1.cls.empty() ? "OK" : r1.cls) + "/" + r1.taint); continue; }
         t.c = r1.choices;
         Iso r2 = run_isolated(w, prop, t.k, t.p, &t.c, 0);   // gate 1: replay from the captured triple
